@@ -100,9 +100,16 @@ def check_enum(case, rec):
     x = np.array(case['x'], dtype=float) * (2.0 ** case.get('scale_exp', 0))     # units: the definition is scale free
     if case.get('gain'):
         x = x * case['gain']        # ADC counts times a non-dyadic gain: half-heights that are ties only up to rounding
+    shift = 0
+    if case.get('loud_prefix'):
+        # a float32 recording that starts with a long loud stretch and goes on at a much smaller amplitude
+        L = case['loud_prefix']
+        pre = (1e4 * np.sin(np.arange(L) * 0.3)).astype(np.float32)
+        x = np.concatenate([pre, x.astype(np.float32)])
+        shift = L
     rec.label('scale:%s' % ('1' if not case.get('scale_exp') else ('tiny' if case['scale_exp'] < -20 else 'other')),
               'gain:%s' % (case.get('gain') or 1))
-    core(x, case['peaks'], case['troughs'], rec)
+    core(x, [p + shift for p in case['peaks']], [t + shift for t in case['troughs']], rec)
 
 
 def check_pipeline(case, rec):
@@ -161,7 +168,8 @@ def strat_raw(draw, tier):
     peaks = [i for j, i in enumerate(idx) if (j % 2 == 0) == (start == 'P')]
     troughs = [i for j, i in enumerate(idx) if (j % 2 == 0) != (start == 'P')]
     return {'x': x, 'peaks': peaks, 'troughs': troughs, 'scale_exp': draw(st.sampled_from([0, 0, 0, -50, -40, -30, -10, 3, 20])),
-            'gain': draw(st.sampled_from([None, None, 0.195, 0.1, 1.0 / 3.0, 0.0061, 7.3]))}
+            'gain': draw(st.sampled_from([None, None, 0.195, 0.1, 1.0 / 3.0, 0.0061, 7.3])),
+            'loud_prefix': draw(st.sampled_from([0, 0, 0, 0, 20000]))}
 
 
 @st.composite
